@@ -997,6 +997,22 @@ pub fn run_c10(job: &Value) {
                                 None => continue,
                             }
                         };
+                        // every third tree is handed over through clone_from into a destination that held a shorter (or a
+                        // longer) tree before: the state reached that way must be sampled like the source
+                        let (tree, desc) = if t % 3 == 2 {
+                            let keep = if t % 2 == 0 { model.len() / 2 } else { model.len() + 4 };
+                            let dst_w: Vec<$W> = (0..keep).map(|_| 1 as $W).collect();
+                            match guarded(|| {
+                                let mut d = WeightedTreeIndex::<$W>::new(dst_w.clone()).ok()?;
+                                d.clone_from(&tree);
+                                Some(d)
+                            }) {
+                                Caught::Ok(Some(d)) => (d, format!("{desc} via clone_from into a tree of {keep}")),
+                                _ => (tree, desc),
+                            }
+                        } else {
+                            (tree, desc)
+                        };
                         // empty / all-zero trees: try_sample must return InsufficientNonZero
                         if !tree.is_valid() {
                             let mut rng2 = Mon::new(Scripted::plain(tseed));
@@ -1010,8 +1026,16 @@ pub fn run_c10(job: &Value) {
                         }
                         let execs = $m::adversarial(&tree, &model, tseed, &desc, &profile, &mut nviol);
                         match $m::sample_counts(&tree, model.len(), n, tseed, 0) {
-                            Ok((counts, words)) => emit(&json!({"ev": "c10_int", "wt": stringify!($W), "tree": desc, "fresh": fresh, "profile": profile, "seed": tseed, "n": n, "len": model.len(),
-                                "weights": model.iter().map(|w| w.to_string()).collect::<Vec<_>>(), "counts": counts, "words": words, "adv_execs": execs})),
+                            Ok((counts, words)) => {
+                                // stage-2 material on the *same* tree (a state reached through a history cannot be rebuilt
+                                // from its weights): 4n draws from the independent generator family
+                                let (counts2, n2) = match $m::sample_counts(&tree, model.len(), 4 * n, tseed ^ 0x5EED, 1) {
+                                    Ok((c2, _)) => (Some(c2), 4 * n),
+                                    Err(_) => (None, 0),
+                                };
+                                emit(&json!({"ev": "c10_int", "wt": stringify!($W), "tree": desc, "fresh": fresh, "profile": profile, "seed": tseed, "n": n, "len": model.len(),
+                                    "weights": model.iter().map(|w| w.to_string()).collect::<Vec<_>>(), "counts": counts, "words": words, "adv_execs": execs, "counts2": counts2, "n2": n2}))
+                            }
                             Err(m) => emit(&json!({"ev": "viol", "wt": stringify!($W), "kind": "sample_panic", "tree": desc, "weights": format!("{model:?}"), "msg": m, "profile": profile,
                                 "stream": {"seed": tseed, "generator": "xoshiro256++"}})),
                         }
